@@ -195,6 +195,15 @@ def c15_r3(ctx):
             ctx.ob(nz, bool(node) and discriminated(node[0]), "NullQuery clauses are filtered out of the clause list",
                    detail="valid for Or, wrong for And (And([NullQuery, t]) matches nothing): not conditioned on the operator",
                    loc=ctx.nodeloc(nz, st))
+    # ... or skipped inside the loop that rebuilds the list: `if s is NullQuery: continue`
+    for n in fa.g.nodes:
+        a = n.ast
+        if n.kind == "stmt" and isinstance(a, ast.Continue):
+            alts = fa.alternatives(n) or []
+            if alts and all(any(p == "T" and "NullQuery" in t and t.startswith("(") and " is " in t for (p, t) in alt) for alt in alts):
+                ctx.ob(nz, discriminated(n), "NullQuery clauses are filtered out of the clause list",
+                       detail="valid for Or, wrong for And (And([NullQuery, t]) matches nothing): not conditioned on the operator",
+                       loc=ctx.nodeloc(nz, a))
     # merge consults intersect before choosing between bounds
     mg = prog.method("query.ranges.RangeMixin", "merge", inherited=False)
     ctx.saw(mg)
